@@ -866,7 +866,7 @@ func C13(r *Run) {
 		"model: 8 literal segments x 8 references (document paths, set / empty / unset environment variables, dangling paths) in templates of 0-2 references, $env in values and keys; driver: templates of 0-4 $-free literal segments (punctuation, unicode, closing braces, colons) and 0-4 references to scalar paths, environment variables with look-alike values and unset names, expected string assembled by hand")
 }
 
-var litAlphabet = []string{"a", "b", " ", ":", "}", "-", "é", "ü", ".", ",", "/", "=", "\"", "'", "[", "#", "%", "Z", "0"}
+var litAlphabet = []string{"a", "b", " ", ":", "}", "-", "é", "ü", ".", ",", "/", "=", "\"", "'", "[", "#", "%", "Z", "0", "\n", "\t", "%s"}
 
 func interpSession(g *gen.G) Sess {
 	// a document with scalar paths
